@@ -170,21 +170,35 @@ def V(unit, vcfile=None, variant=None, defines=None, note='', tags=None, only_fn
             'tags': tags, 'only_fns': only_fns, 'canary': canary}
 
 
+def R(name, args, bound):
+    """bounded stand-in executed by the replay runner on the real code; never counted as proved"""
+    return {'engine': 'replay', 'name': name, 'args': args, 'bound': bound}
+
+
 PROPS = {
     'C01': {'legs': [V('book')], 'design': '§5 C01'},
     'C02': {'legs': [V('book')], 'design': '§5 C02'},
     'C03': {'legs': [V('book')], 'design': '§5 C03'},
     'C04': {'legs': [V('book')], 'design': '§5 C04'},
     'C06': {'legs': [V('book')], 'design': '§5 C06'},
-    'C07': {'legs': [V('book')], 'design': '§5 C07'},
+    'C07': {'legs': [V('book'), V('market'),
+                     R('truncation', ['truncate'], 'snapshots of 4 generated states, compact and pretty: every byte prefix must be rejected by load_json with Err (no panic, no Ok)'),
+                     R('file_round_trip', ['search', '--prop', 'C07', '--depth', '2', '--random', '400', '--len', '40', '--budget', '30'],
+                       'all histories of depth <= 2 over the small alphabet plus 400 random histories of 40 operations with in-memory and through-file reloads (the file is written over an existing longer file): every view equal after reload and under the continuation')],
+            'design': '§5 C07'},
     # C05 demands C01-C04, C06, C07 WITHOUT the clock-discipline precondition: the same unit with those conjuncts removed
     'C05': {'legs': [V('book', variant='nodisc', defines={'defs': ['nodisc']}, tags=['C01', 'C02', 'C03', 'C04', 'C06', 'C07'], canary=False,
-                       note='book unit with the clock-discipline conjuncts of place_pre / replace_pre / orders_ok removed')], 'design': '§5 C05'},
+                       note='book unit with the clock-discipline conjuncts of place_pre / replace_pre / orders_ok removed'),
+                     V('env', variant='nodisc', defines={'defs': ['nodisc']}, tags=['C05', 'C08', 'C10', 'C11'], only_fns=['Env::step'], canary=False,
+                       note='Env::step without the precondition that the batch is no longer than the step size')], 'design': '§5 C05'},
     # C12 quantifies over arbitrary modify prices: the grid clause of modify_order is checked without an on-grid precondition in a variant
-    'C12': {'legs': [V('book'), V('market'), V('book', variant='c12', defines={'defs': ['finding_c12']}, only_fns=['OrderBook::modify_order'], canary=False,
+    'C08': {'legs': [V('env'), V('menv')], 'design': '§5 C08'},
+    'C10': {'legs': [V('env'), V('menv'), V('book'), V('market')], 'design': '§5 C10'},
+    'C11': {'legs': [V('env'), V('menv'), V('book')], 'design': '§5 C11'},
+    'C12': {'legs': [V('book'), V('market'), V('env'), V('menv'), V('book', variant='c12', defines={'defs': ['finding_c12']}, only_fns=['OrderBook::modify_order'], canary=False,
                                   note='modify_order with the unconditional grid clause (expected refutation, known finding)')], 'design': '§5 C12'},
-    'C13': {'legs': [V('book'), V('market')], 'design': '§5 C13'},
-    'C14': {'legs': [V('market')], 'design': '§5 C14'},
+    'C13': {'legs': [V('book'), V('market'), V('env'), V('menv')], 'design': '§5 C13'},
+    'C14': {'legs': [V('market'), V('menv')], 'design': '§5 C14'},
 }
 
 
@@ -271,6 +285,30 @@ def run_canaries(leg, pid, log):
     return {'expected_to_fail': len(want), 'failed_as_expected': len(want) - len(vacuous), 'vacuous': vacuous, 'wall_s': res.get('wall_s'), 'cache_hit': res.get('cache_hit')}
 
 
+def run_bounded(pid, leg, seed):
+    b = build_replay()
+    if not b:
+        raise Undecided('the replay runner does not build against this tree (bounded stand-in %s)' % leg['name'])
+    t = time.time()
+    out = os.path.join(BUILD, 'bounded_%s_%s.json' % (pid, leg['name']))
+    cmd = [b] + leg['args'] + ['--seed', str(seed)] + (['--out', out] if leg['args'][0] == 'search' else [])
+    p = subprocess.run(cmd, capture_output=True, text=True)
+    res = {'name': leg['name'], 'bound': leg['bound'], 'cmd': ' '.join(cmd), 'seconds': round(time.time() - t, 1), 'label': 'bounded'}
+    try:
+        res['output'] = json.loads(p.stdout)
+    except Exception:
+        res['output'] = p.stdout[-800:]
+    if p.returncode == 0:
+        res['status'] = 'passed'
+    elif p.returncode == 1:
+        res['status'] = 'failed'
+        if os.path.exists(out):
+            res['witness'] = json.load(open(out))
+    else:
+        raise Undecided('bounded stand-in %s: runner exit %d: %s' % (leg['name'], p.returncode, p.stderr[-300:]))
+    return res
+
+
 def write_replay(pid, refuted, leg_infos, extra=None):
     os.makedirs(REPLAYS, exist_ok=True)
     path = os.path.join(REPLAYS, '%s.json' % pid)
@@ -303,9 +341,13 @@ def main():
     log = lambda m: (notes.append(m), print(m, file=sys.stderr))
     cfg = PROPS[pid]
     known = load_known()
+    bounded = []
     try:
         legs = []
         for leg in cfg['legs']:
+            if leg['engine'] == 'replay':
+                bounded.append(run_bounded(pid, leg, seed))
+                continue
             if leg['engine'] == 'verus':
                 info = decide_verus_leg(pid, leg, a.tier, seed, log)
                 info['canary'] = run_canaries(leg, pid, log) if leg.get('canary', True) else {'skipped': 'variant of a unit whose canaries run under the base unit', 'vacuous': []}
@@ -335,6 +377,17 @@ def main():
                 p = subprocess.run([build_replay(), 'run', os.path.join(ROOT, k['replay'])], capture_output=True, text=True)
                 rep = (p.returncode == 1)
         kf_report.append({'id': k['id'], 'obligations': k['obligations'], 'refuted_on_this_tree': now, 'history_reproduces_on_real_code': rep})
+    bad_bounded = [b for b in bounded if b['status'] == 'failed']
+    if bad_bounded and not new:
+        path = os.path.join(REPLAYS, '%s.json' % pid)
+        os.makedirs(REPLAYS, exist_ok=True)
+        doc = {'property': pid, 'failed_obligations': [], 'bounded_failures': bad_bounded, 'witness': bad_bounded[0].get('witness'),
+               'note': 'a bounded stand-in (real code, executed) failed; the function concerned is outside the deductive verifier (file I/O / serde)'}
+        json.dump(doc, open(path, 'w'), indent=1)
+        for b in bad_bounded:
+            print('bounded stand-in %s failed: %s' % (b['name'], json.dumps(b.get('output'))[:600]))
+        print('VIOLATION property=%s replay=%s' % (pid, path))
+        rc = 1
     if new:
         path = write_replay(pid, new, legs)
         wit = witness_search(pid, new, a.tier, seed, path)
@@ -344,7 +397,7 @@ def main():
                 print('     %s %s | %s' % (w['label'] or '', w['origin'], w['text'][:140]))
         print('VIOLATION property=%s replay=%s%s' % (pid, path, '' if wit else ' no-failing-input-found'))
         rc = 1
-    write_evidence(pid, a.tier, seed, t0, legs, notes, refuted=refuted, new=new, known=kf_report, kf_obl=kf_obl)
+    write_evidence(pid, a.tier, seed, t0, legs, notes, refuted=refuted, new=new, known=kf_report, kf_obl=kf_obl, bounded=bounded)
     if rc == 0:
         ev = json.load(open(os.path.join(EVID, pid + '.json')))
         print('OK property=%s obligations=%d discharged=%d units=%s wall=%.1fs' % (
@@ -384,33 +437,46 @@ def build_replay():
 
 
 SEARCH_PROPS = {'C01', 'C02', 'C03', 'C04', 'C05', 'C06', 'C07', 'C12', 'C13'}
+ENV_SEARCH_PROPS = {'C05', 'C08', 'C10', 'C11', 'C12', 'C13', 'C14'}
 
 
 def witness_search(pid, new, tier, seed, replay_path):
-    """After a Verus refutation: look for a concrete failing history on the real code (never changes the verdict)."""
-    if pid not in SEARCH_PROPS:
+    """After a Verus refutation: look for a concrete failing history on the real code (never changes the verdict).
+    Book-level histories for obligations of the book / market units, environment-level histories for the env units."""
+    units = {f['obligation'].split('/')[0].split('_')[0] for f in new}
+    want_env = bool(units & {'env', 'menv'}) and pid in ENV_SEARCH_PROPS
+    want_book = bool(units - {'env', 'menv'}) and pid in SEARCH_PROPS
+    if pid in ('C10', 'C11', 'C14', 'C08'):
+        want_env = True
+    if not (want_env or want_book):
         return None
     b = build_replay()
     if not b:
         return None
     out = replay_path + '.witness'
     depth, nrand, budget = (3, 4000, 40) if tier == 'quick' else (4, 40000, 400)
-    cmd = [b, 'search', '--prop', pid, '--depth', str(depth), '--seed', str(seed), '--random', str(nrand), '--len', '60', '--budget', str(budget), '--out', out]
-    if pid == 'C05':
-        cmd.append('--ties')
-    if pid == 'C12':
-        cmd.append('--offgrid')
-    p = subprocess.run(cmd, capture_output=True, text=True)
-    if p.returncode == 1 and os.path.exists(out):
-        w = json.load(open(out))
-        os.remove(out)
-        doc = json.load(open(replay_path))
-        doc['witness'] = w
-        doc['witness_cmd'] = ' '.join(cmd)
-        doc['note'] += '; witness = a history on which the executable twin of the refuted clause fails when run against the real compiled code (replay: ./check %s --replay <this file>)' % pid
-        with open(replay_path, 'w') as fh:
-            json.dump(doc, fh, indent=1)
-        return w
+    cmds = []
+    if want_book:
+        cmd = [b, 'search', '--prop', pid, '--depth', str(depth), '--seed', str(seed), '--random', str(nrand), '--len', '60', '--budget', str(budget), '--out', out]
+        if pid == 'C05':
+            cmd.append('--ties')
+        if pid == 'C12':
+            cmd.append('--offgrid')
+        cmds.append(cmd)
+    if want_env:
+        cmds.append([b, 'search', '--env', '--prop', pid, '--seed', str(seed), '--random', str(nrand), '--budget', str(budget), '--out', out])
+    for cmd in cmds:
+        p = subprocess.run(cmd, capture_output=True, text=True)
+        if p.returncode == 1 and os.path.exists(out):
+            w = json.load(open(out))
+            os.remove(out)
+            doc = json.load(open(replay_path))
+            doc['witness'] = w
+            doc['witness_cmd'] = ' '.join(cmd)
+            doc['note'] += '; witness = a history on which the executable twin of the refuted clause fails when run against the real compiled code (replay: ./check %s --replay <this file>)' % pid
+            with open(replay_path, 'w') as fh:
+                json.dump(doc, fh, indent=1)
+            return w
     return None
 
 
@@ -431,7 +497,7 @@ def replay_file(pid, path):
     return 1 if doc.get('failed_obligations') else 0
 
 
-def write_evidence(pid, tier, seed, t0, legs, notes, refuted=(), new=(), undecided=None, known=(), kf_obl=()):
+def write_evidence(pid, tier, seed, t0, legs, notes, refuted=(), new=(), undecided=None, known=(), kf_obl=(), bounded=()):
     os.makedirs(EVID, exist_ok=True)
     ref_ids = {f['obligation'] for f in refuted}
     # obligations that only fail through a listed known finding are reported apart and not counted as proof obligations
@@ -473,13 +539,14 @@ def write_evidence(pid, tier, seed, t0, legs, notes, refuted=(), new=(), undecid
             'functions_under_contract': fns,
             'units': units, 'rewrite_rules': rules,
             'refuted_obligations': sorted({f['full'] for f in refuted}), 'new_refutations': sorted({f['full'] for f in new}),
+            'bounded_stand_ins_not_counted_as_proved': list(bounded),
             'known_findings': list(known), 'obligations_refuted_by_known_findings_not_counted': sorted(kf_only),
             'back_end': 'Verus %s (Z3)' % verus_version(),
             'explanation': undecided or 'every obligation tagged %s in the generated units was discharged by Verus on source extracted from the working tree on this run' % pid,
         },
         'assumptions': TRUSTED_ALWAYS + notes,
         'wall_s': round(time.time() - t0, 2),
-        'violations': len({f['obligation'] for f in new}),
+        'violations': len({f['obligation'] for f in new}) + len([b for b in bounded if b['status'] == 'failed']),
     }
     with open(os.path.join(EVID, pid + '.json'), 'w') as f:
         json.dump(ev, f, indent=1)
